@@ -21,7 +21,7 @@ CODE = ["yowsup/layers/axolotl/layer_send.py:send/receive/processPlaintextNodeAn
         "axolotl/protocolentities/message_encrypted.py, enc.py, receipt_outgoing_retry.py, receipt_incoming_retry.py"]
 BOUNDS = {"quick": "one step per run from a solver-chosen pre-state: 1:1 and group sends (session present / absent, sender key present), every decrypt outcome x envelope type, retry receipt, "
                    "sent-queue bound with 101 sends; message body of symbolic length 0..2^20; ids and JIDs unconstrained strings; retry loop (receiver's real retry request served by the real sender) after 1-2 failed deliveries, 1:1 and group; "
-                   "restart: REAL managers/stores/ratchets for two parties, 3 messages, 1:1 or group, sender or receiver dies after message 1 or 2",
+                   "payloads text / extended text with and without a merged sender key, one or two envelopes per message; restart: REAL managers/stores/ratchets for two parties, 3 messages, 1:1 or group, sender or receiver dies after message 1 or 2",
           "thorough": "same steps (the two-message steps are part of both tiers)"}
 OUTSIDE = ["whole conversations over the real Signal ratchets beyond the restart case (not encodable symbolically: pure-Python loops over C curve/AES calls, multi-party histories) -- the property's end-to-end clause is only "
            "claimed as step obligations under the ideal stub plus the two-party restart scenarios on the real library",
